@@ -358,6 +358,21 @@ fn water_entry(fmt: &str, ci: usize) -> Mh2oEntry {
             let vd = hu(&i);
             Mh2oEntry { header, instances: vec![i], vertex_data: vec![Some(vd)], exists_bitmaps: vec![None], attributes: None }
         }
+        "lvf0_full" => {
+            let i = inst(1, 0, 0, 0, 8, 8);
+            let vd = hd(&i);
+            Mh2oEntry { header, instances: vec![i], vertex_data: vec![Some(vd)], exists_bitmaps: vec![None], attributes: None }
+        }
+        "lvf2_full" => {
+            let i = inst(14, 2, 0, 0, 8, 8);
+            let vd = d(&i);
+            Mh2oEntry { header, instances: vec![i], vertex_data: vec![Some(vd)], exists_bitmaps: vec![None], attributes: None }
+        }
+        "lvf3_full" => {
+            let i = inst(3, 3, 0, 0, 8, 8);
+            let vd = hud(&i);
+            Mh2oEntry { header, instances: vec![i], vertex_data: vec![Some(vd)], exists_bitmaps: vec![None], attributes: None }
+        }
         "lvf2_bitmap_attrs" => {
             let i = inst(14, 2, 7, 7, 1, 1);
             let vd = d(&i);
@@ -1191,6 +1206,10 @@ fn all() -> Vec<(String, AdtFileType, Result<Vec<u8>, String>)> {
     let mut t = bare_tile(3);
     t.mcnk = vec![make_chunk(&ChunkOpt::empty(0, 7, 9), 1)];
     v.push(("wotlk_min".into(), AdtFileType::Root, build(&t)));
+    // a liquid layer over the whole 8x8 tile grid (9x9 vertices) in every vertex format
+    let mut t = rich_tile(3);
+    t.water = Some(water(&[(0, "lvf0_full"), (1, "lvf1_full"), (2, "lvf2_full"), (3, "lvf3_full")]));
+    v.push(("wotlk_water_full_lvf0123".into(), AdtFileType::Root, build(&t)));
     v.push(("mop_highres_holes".into(), AdtFileType::Root, mop_high_res_holes()));
     v.push(("wotlk_hand_allofs_mclq2".into(), AdtFileType::Root, Ok(hand_wotlk_mono())));
     v.push(("cata_split_root".into(), AdtFileType::Root, Ok(hand_split_root())));
